@@ -14,6 +14,7 @@ import (
 	"sort"
 	"strings"
 
+	frrv1beta1 "github.com/metallb/frr-k8s/api/v1beta1"
 	metallbv1beta1 "go.universe.tf/metallb/api/v1beta1"
 	metallbv1beta2 "go.universe.tf/metallb/api/v1beta2"
 	"go.universe.tf/metallb/internal/verifrt"
@@ -31,6 +32,8 @@ type Store struct {
 	objs map[string]map[string]client.Object // kind -> namespace/name -> object
 	// ListFail, when set, makes List/Get fail (environment fault).
 	Fail func(op, kind string) error
+	// Writes counts successful Create/Update/Delete calls.
+	Writes int
 }
 
 func NewStore() *Store {
@@ -63,6 +66,8 @@ func kindOf(o interface{}) string {
 		return "BFDProfile"
 	case *metallbv1beta2.BGPPeer, *metallbv1beta2.BGPPeerList:
 		return "BGPPeer"
+	case *frrv1beta1.FRRConfiguration, *frrv1beta1.FRRConfigurationList:
+		return "FRRConfiguration"
 	}
 	panic(fmt.Sprintf("verifenv: unsupported type %T", o))
 }
@@ -122,9 +127,57 @@ func (s *Store) Get(ctx context.Context, key client.ObjectKey, obj client.Object
 		o.(*corev1.Secret).DeepCopyInto(dst)
 	case *corev1.Namespace:
 		o.(*corev1.Namespace).DeepCopyInto(dst)
+	case *frrv1beta1.FRRConfiguration:
+		o.(*frrv1beta1.FRRConfiguration).DeepCopyInto(dst)
 	default:
 		panic(fmt.Sprintf("verifenv: Get of %T not supported", obj))
 	}
+	return nil
+}
+
+// Create / Update / Delete: the write half used by the frr-k8s reconciler. Fail("create"|"update"|"delete", kind) injects errors.
+func (s *Store) Create(ctx context.Context, obj client.Object, opts ...client.CreateOption) error {
+	k := kindOf(obj)
+	if s.Fail != nil {
+		if err := s.Fail("create", k); err != nil {
+			return err
+		}
+	}
+	if s.objs[k][objKey(obj)] != nil {
+		return apierrors.NewAlreadyExists(schema.GroupResource{Resource: strings.ToLower(k)}, obj.GetName())
+	}
+	s.Put(obj)
+	s.Writes++
+	return nil
+}
+
+func (s *Store) Update(ctx context.Context, obj client.Object, opts ...client.UpdateOption) error {
+	k := kindOf(obj)
+	if s.Fail != nil {
+		if err := s.Fail("update", k); err != nil {
+			return err
+		}
+	}
+	if s.objs[k][objKey(obj)] == nil {
+		return apierrors.NewNotFound(schema.GroupResource{Resource: strings.ToLower(k)}, obj.GetName())
+	}
+	s.Put(obj)
+	s.Writes++
+	return nil
+}
+
+func (s *Store) Delete(ctx context.Context, obj client.Object, opts ...client.DeleteOption) error {
+	k := kindOf(obj)
+	if s.Fail != nil {
+		if err := s.Fail("delete", k); err != nil {
+			return err
+		}
+	}
+	if s.objs[k][objKey(obj)] == nil {
+		return apierrors.NewNotFound(schema.GroupResource{Resource: strings.ToLower(k)}, obj.GetName())
+	}
+	s.Remove(k, obj.GetNamespace(), obj.GetName())
+	s.Writes++
 	return nil
 }
 
